@@ -9,7 +9,7 @@ import time
 from pathlib import Path
 
 from . import driver
-from .driver import InvalidCase, Rec, Violation
+from .driver import Excluded, InvalidCase, Rec, Violation
 
 VERIF = Path(__file__).resolve().parent.parent
 KNOWN = VERIF / "known_findings.json"
